@@ -195,7 +195,82 @@ Not decided: that every mentioned name is declared or imported (program dependen
     }
 
     shapes(m, ctx);
+    imports(m, ctx);
     categories(m, ctx, &ts);
+}
+
+/// C18.imports: "every type name it mentions is declared in the namespace or imported". The import loop of
+/// generate_module decides per imported symbol whether an `import X = NS.X;` line is written; the decision is evaluated
+/// on symbol spellings. A type reference may be spelled with capitals, digits and hyphens only (`PDU`, `T1`, `X509`), so
+/// a decision made from the spelling drops imports of real types.
+fn imports(m: &Model, ctx: &mut Ctx) {
+    let Some(f) = m.fns.iter().find(|f| f.name == "generate_module" && f.self_ty.as_deref() == Some("Typescript")) else {
+        ctx.fail_closed("C18.imports", "anchor not found: Typescript::generate_module");
+        return;
+    };
+    ctx.func(&f.key);
+    struct C {
+        out: Vec<syn::ExprIf>,
+    }
+    impl model::DeepCb for C {
+        fn expr(&mut self, e: &syn::Expr) {
+            if let syn::Expr::If(i) = e {
+                if tok(&i.then_branch).contains("import {") || literals(&i.then_branch).iter().any(|(t, _, _)| t.starts_with("import ")) {
+                    self.out.push(i.clone());
+                }
+            }
+        }
+    }
+    let mut c = C { out: vec![] };
+    model::deep_walk_block(&f.block, &mut c);
+    // innermost such `if`
+    let Some(site) = c.out.iter().min_by_key(|i| tok(*i).len()) else {
+        ctx.fail_closed("C18.imports", "generate_module: the `if` guarding the import line was not found");
+        return;
+    };
+    // the loop variable: the `for <v> in &import.types`
+    struct F {
+        var: Option<String>,
+    }
+    impl model::DeepCb for F {
+        fn expr(&mut self, e: &syn::Expr) {
+            if let syn::Expr::ForLoop(fl) = e {
+                if tok(&fl.expr).contains(".types") && self.var.is_none() {
+                    self.var = Some(tok(&fl.pat));
+                }
+            }
+        }
+    }
+    let mut fv = F { var: None };
+    model::deep_walk_block(&f.block, &mut fv);
+    let var = fv.var.unwrap_or("usage".into());
+    let consts = const_resolver(m);
+    let ev = Evaluator { consts: &consts, call_hook: &crate::eval::no_hook, inline: None };
+    let classes: [(&str, &str, bool); 8] = [
+        ("mixed-case", "Label", true),
+        ("mixed-case-with-hyphen", "My-Type", true),
+        ("mixed-case-with-digit", "Type2", true),
+        ("caps-and-digits", "T1", true),
+        ("caps-and-digits", "X509", true),
+        ("all-caps", "PDU", true),
+        ("all-caps-with-hyphen", "RRC-PDU", true),
+        ("parameterized", "Param{}", false),
+    ];
+    for (class, name, want) in classes {
+        ctx.oblige("C18.imports", &format!("{}:{}", class, name), true);
+        let mut env = Env::new();
+        env.insert(var.clone(), Val::Str(name.into()));
+        match ev.eval(&site.cond, &mut env) {
+            Ok(Val::Bool(b)) => {
+                if b != want {
+                    ctx.violate("C18.imports", &format!("spelling-heuristic:{}", class), &f.file, span_line(site),
+                        &format!("an imported symbol spelled `{}` ({}) {} an `import` line; a type reference may be spelled like this (X.680 12.2), so a type `{}` imported from another module is mentioned in the namespace without being imported (the decision whether a symbol is a class must come from the definitions, not from the spelling)", name, class, if b { "gets" } else { "does not get" }, name));
+                }
+            }
+            Ok(o) => ctx.fail_closed("C18.imports", &format!("[{}]: condition evaluated to {}", name, o.show())),
+            Err(e) => ctx.fail_closed("C18.imports", &format!("[{}]: {}", name, e)),
+        }
+    }
 }
 
 fn shapes(m: &Model, ctx: &mut Ctx) {
